@@ -104,7 +104,7 @@ class GraphGen:
             elif x < 0.40:
                 # directed chains that the optimiser rewrites: sums of fresh single-use terms,
                 # product then sum, negation then sum/difference
-                kind = r.choice(['sum', 'sum', 'muladd', 'addneg', 'subneg', 'sumsum'])
+                kind = r.choice(['sum', 'sum', 'muladd', 'addneg', 'subneg', 'sumsum', 'mulmul', 'sumN', 'sumN'])
                 a, b, c, d_ = pick(0.15), pick(0.15), pick(0.15), pick(0.15)
                 def push(ev):
                     events.append(ev); vals.append((base + len(events) - 1, 0)); return ['r', base + len(events) - 1, 0]
@@ -116,6 +116,18 @@ class GraphGen:
                 elif kind == 'sumsum':
                     t1 = push({'t': 'binop', 'sel': 'add', 'a': a, 'b': b})
                     push({'t': 'binop', 'sel': 'add', 'a': t1, 'b': t1})
+                elif kind == 'mulmul':
+                    # a product whose only consumer is one addition using it for both operands
+                    t1 = push({'t': 'binop', 'sel': 'mul', 'a': a, 'b': b})
+                    push({'t': 'binop', 'sel': 'add', 'a': t1, 'b': t1})
+                elif kind == 'sumN':
+                    # Sum3.new / Sum4.new called directly (as Mix does), literal zeros in any position
+                    k = r.choice([3, 4])
+                    args = [a, b, c, d_][:k]
+                    for z in range(k):
+                        if r.random() < 0.3:
+                            args[z] = ['n', 0, 1]
+                    push({'t': 'sum' + str(k), 'args': args})
                 elif kind == 'muladd':
                     t1 = push({'t': 'binop', 'sel': 'mul', 'a': a, 'b': b})
                     push({'t': 'binop', 'sel': 'add', 'a': t1, 'b': c} if r.random() < 0.5 else {'t': 'binop', 'sel': 'add', 'a': c, 'b': t1})
@@ -211,6 +223,8 @@ def model_lines(prog, flags):
             lines.append(f'binop {e["sel"]} {arg_str(e["a"])} {arg_str(e["b"])}')
         elif t == 'madd':
             lines.append(f'madd {arg_str(e["a"])} {arg_str(e["m"])} {arg_str(e["c"])}')
+        elif t in ('sum3', 'sum4'):
+            lines.append(t + ' ' + ' '.join(arg_str(a) for a in e['args']))
         elif t == 'out':
             lines.append(' '.join(['out', e['cls'], e['mode'], arg_str(e['bus'])] + [arg_str(a) for a in e['chans']]))
     lines.append('end')
@@ -243,6 +257,29 @@ def run_model(progs, impl_outs):
             o['validator_model'] = selfv
         res.append(m)
     return res
+
+
+# what each Python operator form on unit generators x, y MEANS: (unit class, server operator, inputs)
+_B, _U = 'BinaryOpUGen', 'UnaryOpUGen'
+PYOP_REF = {
+    'neg': (_U, 'neg', ['x']), 'abs': (_U, 'abs', ['x']), 'invert': (_U, 'bitNot', ['x']),
+    'round1': (_B, 'round', ['x', '1']), 'round_q': (_B, 'round', ['x', '1/2']),
+    'floor': (_U, 'floor', ['x']), 'ceil': (_U, 'ceil', ['x']), 'trunc': (_B, 'trunc', ['x', '1']),
+    'add': (_B, '+', ['x', 'y']), 'sub': (_B, '-', ['x', 'y']), 'mul': (_B, '*', ['x', 'y']),
+    'truediv': (_B, '/', ['x', 'y']), 'floordiv': (_B, 'div', ['x', 'y']), 'mod': (_B, 'mod', ['x', 'y']),
+    'pow': (_B, 'pow', ['x', 'y']), 'lshift': (_B, 'leftShift', ['x', 'y']), 'rshift': (_B, 'rightShift', ['x', 'y']),
+    'and': (_B, 'bitAnd', ['x', 'y']), 'or': (_B, 'bitOr', ['x', 'y']), 'xor': (_B, 'bitXor', ['x', 'y']),
+    'lt': (_B, '<', ['x', 'y']), 'le': (_B, '<=', ['x', 'y']), 'gt': (_B, '>', ['x', 'y']), 'ge': (_B, '>=', ['x', 'y']),
+    'eq': (_B, '==', ['x', 'y']), 'ne': (_B, '!=', ['x', 'y']),
+    'radd': (_B, '+', ['3', 'x']), 'rsub': (_B, '-', ['3', 'x']), 'rmul': (_B, '*', ['3', 'x']),
+    'rtruediv': (_B, '/', ['3', 'x']), 'rfloordiv': (_B, 'div', ['3', 'x']), 'rmod': (_B, 'mod', ['3', 'x']),
+    'rpow': (_B, 'pow', ['3', 'x']), 'rlshift': (_B, 'leftShift', ['3', 'x']), 'rrshift': (_B, 'rightShift', ['3', 'x']),
+    'rand': (_B, 'bitAnd', ['3', 'x']), 'ror': (_B, 'bitOr', ['3', 'x']), 'rxor': (_B, 'bitXor', ['3', 'x']),
+    # 3 < x is x > 3 (Python reflects comparisons), commutative forms may also keep the written order
+    'rlt': (_B, '>', ['x', '3']), 'rle': (_B, '>=', ['x', '3']), 'rgt': (_B, '<', ['x', '3']), 'rge': (_B, '<=', ['x', '3']),
+}
+PYOP_ALT = {'rlt': (_B, '<', ['3', 'x']), 'rle': (_B, '<=', ['3', 'x']), 'rgt': (_B, '>', ['3', 'x']), 'rge': (_B, '>=', ['3', 'x']),
+            'radd': (_B, '+', ['x', '3']), 'rmul': (_B, '*', ['x', '3'])}
 
 
 class Check(common.Check):
@@ -286,13 +323,39 @@ class Check(common.Check):
         if res is None:
             self.notes.append('opcode probe failed: ' + err[-300:])
             return []
-        out = self.class_table_static()
+        out = self.class_table_static() + self.pyop_static()
         self._opcode_probe = len(res)
         for arity, name, got in res:
             want = (opcodes_ref.UNARY if arity == 'unary' else opcodes_ref.BINARY).index(name)
             if got != want:
                 out.append({'what': f'{arity} operator {name!r} is emitted with special index {got}, the server opcode is {want}',
                             'signature': f'c01:opcode:{arity}:{name}', 'case': {'operator': name, 'arity': arity}})
+        return out
+
+    def pyop_static(self):
+        """Python's operator protocol (unary, binary, reflected, builtins round/abs/floor/ceil/trunc) on unit
+        generators: the emitted operator unit carries the server opcode of the operator the expression means,
+        wired to the operands in the written order"""
+        from tools import opcodes_ref
+        res, err = common.run_impl('c01', 'pyop_probe', {'mode': 'nrt'}, timeout=600)
+        if res is None:
+            self.notes.append('operator protocol probe failed: ' + err[-300:])
+            return []
+        self._pyop_probe = len(res)
+        out = []
+        for form, cls, sp, ins in res:
+            if form == 'pos':
+                ok = cls == 'EXC' or (cls == 'NONE' and ins == ['x'])     # unary plus: identity, or refused
+                got = (cls, sp, ins)
+            else:
+                name = None
+                if cls == _U and isinstance(sp, int) and 0 <= sp < len(opcodes_ref.UNARY): name = opcodes_ref.UNARY[sp]
+                if cls == _B and isinstance(sp, int) and 0 <= sp < len(opcodes_ref.BINARY): name = opcodes_ref.BINARY[sp]
+                got = (cls, name if name is not None else sp, ins)
+                ok = got == PYOP_REF[form] or (form in PYOP_ALT and got == PYOP_ALT[form])
+            if not ok:
+                out.append({'what': f'Python operator form {form!r} on unit generators is emitted as {got}; it means {PYOP_REF.get(form)}',
+                            'signature': f'c01:pyop:{form}', 'case': {'form': form}})
         return out
 
     def class_table_static(self):
@@ -371,6 +434,7 @@ class Check(common.Check):
         h['events_total'] = sum(len(c['events']) for c in cases)
         h['real_output_certified_by_validator'] = sum(1 for o in outs if o.get('validator_real') == 'VALID')
         h['model_output_certified_by_validator'] = sum(1 for o in outs if o.get('validator_model') == '1')
+        h['validator_skipped_polynomials_too_large'] = sum(1 for o in outs if str(o.get('validator_real', '')).startswith('SKIP'))
         return h
 
     def shrink(self, case, fails):
@@ -392,7 +456,7 @@ class Check(common.Check):
                 for k in ('a', 'b', 'm', 'c', 'bus'):
                     if k in e:
                         e[k] = ra(e[k])
-                for k in ('ins', 'chans'):
+                for k in ('ins', 'chans', 'args'):
                     if k in e:
                         e[k] = [ra(a) for a in e[k]]
                 out.append(e)
